@@ -18,7 +18,7 @@ RULE = (
   "contact_force normal component >= -adhesion-eps; plus contact-only free-body scenes evaluated for 2-4 states on ONE Data (states with contacts alternating with states without any row, with and without the sleep flag): the same predicates, and qfrc_constraint zero (1e-4 of the smooth-force scale) when a world has no rows; evaluation = one world (and step); non-trivial = an active contact with non-zero tangential force or a saturated friction-loss row"
 )
 ASSUMPTIONS = ["eps = 1e-4 * max(1, max|force|) (float32)", "worlds with ITERATIONS/LS_ITERATIONS set are only checked for qfrc_constraint = J^T force"]
-BUDGET = {"quick": dict(examples=400, seconds=150, workers=16), "thorough": dict(examples=10000, seconds=1500, workers=16)}
+BUDGET = {"quick": dict(examples=400, seconds=420, workers=16), "thorough": dict(examples=10000, seconds=1500, workers=16)}
 
 
 def _reuse_strategy():
